@@ -83,6 +83,7 @@ theorem specAction_sidecar (c : Ctx) (r : HTTPRoute) (hn : (c.services.map (·.h
       congr 1
       rw [List.all_eq_true] at h
       unfold specForward
+      simp only [← cluster_correct]
       have hmap : ∀ ds : List RouteDest, (∀ d ∈ ds, d ∈ r.route) →
           ds.map (fun d => (destinationCluster (sidecarCtx c) d.dest, d.weight))
             = ds.map (fun d => (destinationCluster c d.dest, d.weight)) := by
